@@ -63,7 +63,7 @@ pub fn tid(i: u8) -> u128 {
 
 /// 0 local, 1 and 2 remote; 4.. are pairs that a "helpful" normalisation would conflate: 4 / 5 differ
 /// in NO-BREAK SPACE vs SPACE, 6 is key 1 in upper case, 7 is key 1 with a trailing space, 8 / 9 are
-/// the composed and decomposed spelling of the same text
+/// the composed and decomposed spelling of the same text, 10 / 11 are 73-byte keys with a common 64-byte prefix
 pub fn key_text(k: u8) -> &'static str {
     match k {
         0 => "local-pw",
@@ -74,6 +74,9 @@ pub fn key_text(k: u8) -> &'static str {
         7 => "remote-one ",
         8 => "caf\u{e9}-pass",
         9 => "cafe\u{301}-pass",
+        // longer than the 64-byte HMAC block, equal in their first 64 bytes (RFC 2104 hashes such keys)
+        10 => "0123456789abcdef0123456789abcdef0123456789abcdef0123456789abcdef/peer-one",
+        11 => "0123456789abcdef0123456789abcdef0123456789abcdef0123456789abcdef/peer-two",
         _ => "remote-two",
     }
 }
@@ -235,11 +238,11 @@ pub fn other_wire(kind: u8) -> Vec<u8> {
 /// Response flavours (the `class` of `Act::Resp`): 2 success and 3 error with a SOFTWARE attribute;
 /// 4 = 401 Unauthorized with REALM and NONCE (the long-term credential challenge), 5 = 438 Stale
 /// Nonce with REALM and NONCE, 6 = 300 Try Alternate with ALTERNATE-SERVER, 7 = success with
-/// XOR-MAPPED-ADDRESS, 8 = 420 Unknown Attribute with UNKNOWN-ATTRIBUTES.  What a response says
+/// XOR-MAPPED-ADDRESS, 8 = 420 Unknown Attribute with UNKNOWN-ATTRIBUTES, 9 / 10 = success / 500 with comprehension-required attributes unknown to the library.  What a response says
 /// never changes what the agent does with it.
-pub const RESP_FLAVOURS: [u8; 5] = [4, 5, 6, 7, 8];
+pub const RESP_FLAVOURS: [u8; 7] = [4, 5, 6, 7, 8, 9, 10];
 pub fn response_wire(id: u8, class: u8, auth: Auth) -> Vec<u8> {
-    let wire_class = if class == 2 || class == 7 { 2 } else { 3 };
+    let wire_class = if class == 2 || class == 7 || class == 9 { 2 } else { 3 };
     let mut b = wire::encode_header(wire_class, 1, tid(id), 0);
     let err = |b: &mut Vec<u8>, code: u16, reason: &str| {
         let mut v = vec![0, 0, (code / 100) as u8, (code % 100) as u8];
@@ -261,6 +264,18 @@ pub fn response_wire(id: u8, class: u8, auth: Auth) -> Vec<u8> {
             wire::append_raw(&mut b, 0x8023, &[0, 1, 0x0D, 0x96, 192, 0, 2, 7]);
         }
         7 => wire::append_raw(&mut b, 0x0020, &[0, 1, 0x21 ^ 0x12, 0x12 ^ 0x34, 0x21 ^ 10, 0x12, 0xA4, 0x42 ^ 9]),
+        // 9 / 10: a success / an error response carrying comprehension-required attributes the library
+        // has no name for (SOURCE-ADDRESS, CHANGED-ADDRESS, LIFETIME, XOR-RELAYED-ADDRESS, 0x7F00)
+        9 | 10 => {
+            if class == 10 {
+                err(&mut b, 500, "Server Error");
+            }
+            wire::append_raw(&mut b, 0x0004, &[0, 1, 0x0D, 0x96, 192, 0, 2, 1]);
+            wire::append_raw(&mut b, 0x0005, &[0, 1, 0x0D, 0x97, 192, 0, 2, 2]);
+            wire::append_raw(&mut b, 0x000D, &[0, 0, 2, 88]);
+            wire::append_raw(&mut b, 0x0016, &[0, 1, 0x21 ^ 0x12, 0x12 ^ 0x34, 0x21 ^ 10, 0x12, 0xA4, 0x42 ^ 9]);
+            wire::append_raw(&mut b, 0x7F00, &[]);
+        }
         8 => {
             err(&mut b, 420, "Unknown Attribute");
             wire::append_raw(&mut b, 0x000A, &[0xC0, 0x01, 0x00, 0x30]);
